@@ -135,20 +135,64 @@ Proof.
   intros H. apply all2_complete in H. vm_compute in H. discriminate.
 Qed.
 
-(** ** a slice reaching beyond the audio: the static sound clips it, the streaming sound's decoder runs out *)
+(** ** REGRESSION (F46, fixed): slices reaching beyond the audio, inverted, empty.  Both sounds clip the slice to the
+    audio, so these are ordinary instances of the simulation theorem now; the runs are computed to show that they
+    complete with the decoder ahead and that something is heard. *)
 Definition evs3 := dec 12 ++ [EvStart nc; proc 4; EvStart nc; proc 4].
-Lemma slice_beyond_witness :
-  ~ slice_wf fq audio8 (Some (5, 11)) /\ rates_nonneg powq Q Q g2 evs3 /\
+Ltac regression wf :=
+  let x0 := fresh "x0" in let w0 := fresh "w0" in let Hx := fresh "Hx" in let Hw := fresh "Hw" in
+  let Hsim := fresh "Hsim" in let Hrun := fresh "Hrun" in let Hr := fresh "Hr" in
+  assert (Hr : rates_nonneg powq Q Q g2 evs3) by (split; [reflexivity | apply rates_okb_sound; vm_compute; reflexivity]);
+  destruct (simulation powq fq zq Q interpq (fun x => x) scaleq Q lerpq (-60)%Q 0%Q ampq Q lerpq 0%Q pannedq fuelq
+                       audio8 capq 4 _ g2 8 2 wf dq dq_pos dq_size dq_next dq_seek dq_err dq0 dq_conforming evs3
+                       Hr)
+    as (x0 & w0 & Hx & Hw & _ & _ & Hsim);
+  vm_compute in Hw; injection Hw as <-;
+  lazymatch type of (Hsim []) with ?L = _ -> _ => eassert (Hrun : L = Ok (_, false)) by (vm_compute; reflexivity) end;
+  destruct (Hsim _ Hrun) as (xs & Hxs & Hrel);
+  eexists _, _, xs, _; split; [exact Hx|]; split; [vm_compute; reflexivity|];
+  split; [exact Hxs|]; split; [exact Hrun | exact Hrel].
+
+Lemma wf_any_slice : forall sl, match sl with Some (a, _) => 0 <= a | None => True end ->
+  num_frames (audio_source fq zq audio8) sl <= 8 -> wf_config fq zq Q Q fuelq audio8 4 sl g2 8 2.
+Proof.
+  intros sl H0 Hn. unfold wf_config. cbn [g2 g_start_pos g_loop into_samples option_map req_loop].
+  change (length audio8) with 8%nat. unfold slice_wf, u64_max, need_fuel, fuelq. cbn.
+  repeat split; try lia; try exact H0; try exact Hn.
+Qed.
+
+Lemma slice_beyond_regression :
   exists x w xs ys,
     s_newq 4 (audio_source fq zq audio8) (Some (5, 11)) g2 = Ok x /\ y_newq 4 (Some (5, 11)) g2 = Ok w /\
-    s_runq x evs3 = Ok xs /\ y_runq w evs3 = Ok (ys, false) /\
-    ~ Forall2 (obs_rel fq 4) xs ys.
-Proof.
-  split; [unfold slice_wf; cbn; lia|]. split; [split; [reflexivity | apply rates_okb_sound; vm_compute; reflexivity]|].
-  eexists _, _, _, _. split; [vm_compute; reflexivity|]. split; [vm_compute; reflexivity|].
-  split; [vm_compute; reflexivity|]. split; [vm_compute; reflexivity|].
-  intros H. apply all2_complete in H. vm_compute in H. discriminate.
-Qed.
+    s_runq x evs3 = Ok xs /\ y_runq w evs3 = Ok (ys, false) /\ Forall2 (obs_rel fq 4) xs ys.
+Proof. regression (wf_any_slice (Some (5, 11)) ltac:(cbn; lia) ltac:(vm_compute; discriminate)). Qed.
+
+Lemma slice_inverted_regression :
+  exists x w xs ys,
+    s_newq 4 (audio_source fq zq audio8) (Some (6, 2)) g2 = Ok x /\ y_newq 4 (Some (6, 2)) g2 = Ok w /\
+    s_runq x evs3 = Ok xs /\ y_runq w evs3 = Ok (ys, false) /\ Forall2 (obs_rel fq 4) xs ys.
+Proof. regression (wf_any_slice (Some (6, 2)) ltac:(cbn; lia) ltac:(vm_compute; discriminate)). Qed.
+
+Lemma slice_start_beyond_regression :
+  exists x w xs ys,
+    s_newq 4 (audio_source fq zq audio8) (Some (9, 20)) g2 = Ok x /\ y_newq 4 (Some (9, 20)) g2 = Ok w /\
+    s_runq x evs3 = Ok xs /\ y_runq w evs3 = Ok (ys, false) /\ Forall2 (obs_rel fq 4) xs ys.
+Proof. regression (wf_any_slice (Some (9, 20)) ltac:(cbn; lia) ltac:(vm_compute; discriminate)). Qed.
+
+(** what is heard through the slice (5, 11): frames 6, 7, 8 of the audio at rate 1.5 *)
+Lemma slice_beyond_heard :
+  exists x xs, s_newq 4 (audio_source fq zq audio8) (Some (5, 11)) g2 = Ok x /\ s_runq x evs3 = Ok xs /\
+               nth 1 xs (OPos 0%Q 0 0 0%Q 0) = OOut [(6%Q, (-6)%Q); (129 # 16, -129 # 16)%Q; (0%Q, 0%Q); (0%Q, 0%Q)] 6 true.
+Proof. eexists _, _. split; [vm_compute; reflexivity|]. split; [vm_compute; reflexivity|]. vm_compute. reflexivity. Qed.
+
+(** the counter-model of the OLD behaviour ([num_frames = end - start] = 6 for the slice (5, 11) of 8 frames): the
+    scheduler asks the decoder for frame 5 + 3 = 8, which does not exist — the decoder fails, and the sound with it *)
+Lemma old_slice_length_decodes_past_the_end :
+  q_frame_at_index fq zq fuelq audio8 dq dq_pos dq_size dq_next dq_seek dq_err
+    {| q_status := Running; q_dec := {| ds_dec := dq0; ds_cur := 0; ds_chunk := None |};
+       q_slice := Some (5, 11); q_n := 11 - 5; q_tr := transport_new 0 None false (11 - 5) |} 3
+  = Ok (None, {| ds_dec := (8%nat, 12%nat); ds_cur := 8; ds_chunk := Some (7%nat, [(8%Q, (-8)%Q)]) |}).
+Proof. vm_compute. reflexivity. Qed.
 
 (** ** a negative rate: the static sound plays backwards, the streaming sound stands still *)
 Definition g4 : settings Q Q Q :=
@@ -169,8 +213,9 @@ Proof.
   intros H. apply all2_complete in H. vm_compute in H. discriminate.
 Qed.
 
-(** ** binary64: a rate of -0.0 is "not below zero" but has its sign bit set; the static sound's direction test reads
-    the sign bit, so its three-frame pre-fill walks backwards from the start position *)
+(** ** REGRESSION (F47, fixed), binary64 / binary32: an initial rate of -0.0 followed by [set_playback_rate(1.0)].
+    -0.0 is not NaN and not below zero, so it is inside the rate hypothesis now; the static sound's direction test is
+    [rate < 0.0], its pre-fill goes forwards, and the two encoded traces (left and right of the 777777 mark) agree. *)
 Definition nz64 : Z := 9223372036854775808.        (* -0.0 *)
 Definition one64 : Z := 4607182418800017408.       (* 1.0 *)
 Definition quarter64 : Z := 4598175219545276416.   (* 0.25 *)
@@ -181,15 +226,18 @@ Definition negzero_case : case :=
          RStart {| r_vol := None; r_rate := Some (TFixed one64, (SImm, 0, 0, 0)); r_pan := None;
                    r_pause := None; r_resume := None; r_stop := None |};
          RProc 3 quarter64 [] []] [].
-Lemma negative_zero_witness :
+Lemma negative_zero_regression :
   let r := f64_of_bits nz64 in
-  nisnan r = false /\ nltb r n0 = false /\ nsignneg r = true /\
-  exists l1 l2, run negzero_case = l1 ++ 777777 :: l2 /\ ~ In 777777 l1 /\ l1 <> l2.
+  rate_nonneg r /\
+  exists l, run negzero_case = l ++ 777777 :: l /\ ~ In 777777 l /\
+            l = [4602678819172646912; 0; 0; 4602678819172646912; 0; 1077936128; 0; 1079955608; 0; 1082130432; 0; 0; 0].
 Proof.
-  cbv zeta. split; [vm_compute; reflexivity|]. split; [vm_compute; reflexivity|]. split; [vm_compute; reflexivity|].
-  exists [4602678819172646912; 0; 0; 4602678819172646912; 0; 1077936128; 0; 1077780783; 0; 1073741824; 0; 0; 0],
-         [4602678819172646912; 0; 0; 4602678819172646912; 0; 1077936128; 0; 1079955608; 0; 1082130432; 0; 0; 0].
-  split; [vm_compute; reflexivity|]. split.
-  - cbn [In]. intros H. repeat (destruct H as [H|H]; [discriminate H|]). exact H.
-  - discriminate.
+  cbv zeta. split; [split; vm_compute; reflexivity|].
+  exists [4602678819172646912; 0; 0; 4602678819172646912; 0; 1077936128; 0; 1079955608; 0; 1082130432; 0; 0; 0].
+  split; [vm_compute; reflexivity|]. split; [|reflexivity].
+  cbn [In]. intros H. repeat (destruct H as [H|H]; [discriminate H|]). exact H.
 Qed.
+(** the counter-model of the OLD behaviour: the sign-bit test calls -0.0 "backwards", the comparison does not *)
+Lemma old_direction_test_reads_the_sign_bit :
+  let r := f64_of_bits nz64 in nsignneg r = true /\ nltb r n0 = false /\ nabs r = f64_of_bits 0 /\ nmax0 r = nabs r.
+Proof. cbv zeta. repeat split; vm_compute; reflexivity. Qed.
